@@ -142,8 +142,8 @@ class RealModel(object):
     def trunc_to_int(self, a): return z3.If(a >= 0, z3.ToInt(a), -z3.ToInt(-a))
     def floor(self, a): return z3.ToReal(z3.ToInt(a))
     def typing_assumption(self, a):
-        m = self.const(DBL_MAX)
-        return z3.Or(z3.And(-m <= a, a <= m), self.isinf(a))
+        # no magnitude bound: giant constants cripple the nonlinear solver; model R is "floats as reals"
+        return z3.BoolVal(True)
 
     def to_py(self, v):
         v = z3.simplify(v)
